@@ -16,6 +16,37 @@ def render(st):
     files = {}
     where = {}
     bodies = {1: [], 2: [], 3: []}
+    if st.get("oneModule"):
+        # one module holds the whole chain; every type also has a PRIVATE component, used inside the module
+        lines = ["module tmall", "  implicit none"]
+        for i in range(1, D + 1):
+            ext = ", extends(t%d)" % (i - 1) if i > 1 else ""
+            lines += ["  type%s :: t%d" % (ext, i), "    integer :: c%d" % i, "    integer, private :: p%d" % i, "  contains", "    procedure :: b%d => impl%d" % (i, i), "  end type t%d" % i]
+        lines.append("contains")
+        for i in range(1, D + 1):
+            lines += ["  subroutine impl%d(self)" % i, "    class(t%d) :: self" % i, "  end subroutine impl%d" % i]
+        lines += ["  subroutine usepriv(o)", "    type(t%d) :: o" % D]
+        privrefs = []
+        for i in range(1, D + 1):
+            lines.append("    o%%p%d = %d" % (i, i))
+            privrefs.append((("p", i), len(lines) - 1, 6))
+        lines += ["  end subroutine usepriv", "end module tmall"]
+        for i in range(1, D + 1):
+            where[("c", i)] = ("a_f1.f90", lines.index("    integer :: c%d" % i), 15)
+            where[("p", i)] = ("a_f1.f90", lines.index("    integer, private :: p%d" % i), 24)
+            where[("b", i)] = ("a_f1.f90", lines.index("    procedure :: b%d => impl%d" % (i, i)), 17)
+        files["a_f1.f90"] = "\n".join(lines) + "\n"
+        pl = ["program main", "  use tmall", "  implicit none", "  type(t%d) :: v" % D]
+        refs = []
+        for i in range(1, D + 1):
+            pl.append("  v%%c%d = %d" % (i, i))
+            refs.append((("c", i), len(pl) - 1, 4))
+            pl.append("  call v%%b%d()" % i)
+            refs.append((("b", i), len(pl) - 1, 9))
+        pl.append("end program main")
+        pname = ("0_main.f90" if st["progFirst"] else "z_main.f90")
+        files[pname] = "\n".join(pl) + "\n"
+        return files, where, refs, pname, [("a_f1.f90",) + r for r in privrefs]
     for i in range(1, D + 1):
         f = place[i - 1]
         use = "  use tm%d\n" % (i - 1) if i > 1 else ""
@@ -46,12 +77,12 @@ def render(st):
     pl.append("end program main")
     pname = ("0_main.f90" if st["progFirst"] else "z_main.f90")
     files[pname] = "\n".join(pl) + "\n"
-    return files, where, refs, pname
+    return files, where, refs, pname, []
 
 
 def check(job):
     st, mode, part = job
-    files, where, refs, pname = render(st)
+    files, where, refs, pname, privrefs = render(st)
     d = adapter.mkws(files)
     bad = []
     try:
@@ -69,14 +100,34 @@ def check(job):
                 got = (os.path.basename(adapter.path_from_uri(r["uri"])), r["range"]["start"]["line"], r["range"]["start"]["character"])
             if got != exp:
                 bad.append((tags0 | {"typeres:definition", "member:%s" % m[0], "inheritedLevels:%d" % (st["D"] - m[1])}, {"member": list(m), "expected": exp, "observed": got}))
+        # PRIVATE components of every ancestor are accessible (and must resolve) inside the defining module
+        for fn, m, ln, col in (privrefs if part == "definition" else []):
+            r = adapter.result_of(adapter.request(s, c, "textDocument/definition", adapter.posparams(d, fn, ln, col + 1)))
+            got = None
+            if isinstance(r, dict) and "uri" in r:
+                got = (os.path.basename(adapter.path_from_uri(r["uri"])), r["range"]["start"]["line"], r["range"]["start"]["character"])
+            if got != where[m]:
+                bad.append((tags0 | {"typeres:definition", "member:private", "inheritedLevels:%d" % (st["D"] - m[1])}, {"member": list(m), "expected": where[m], "observed": got}))
+        # an unsaved edit renames the root type's component: answers must follow the buffer
+        renamed = False
+        if st.get("editRoot") and mode == "opened":
+            fn1 = where[("c", 1)][0]
+            newtext = files[fn1].replace("integer :: c1", "integer :: c9")
+            adapter.notify(s, c, "textDocument/didChange", {"textDocument": {"uri": adapter.uri(d, fn1)}, "contentChanges": [{"text": newtext}]})
+            renamed = True
+            tags0 = tags0 | {"after:unsavedEditOfRoot", "rootAndLeafSameFile:%s" % (len({where[("c", 1)][0], where[("c", st["D"])][0]}) == 1)}
         # completion after "v%" offers exactly the members of the leaf type
         ln = refs[0][1]
         r = adapter.result_of(adapter.request(s, c, "textDocument/completion", adapter.posparams(d, pname, ln, 4))) if part == "completion" else None
         items = r.get("items", r) if isinstance(r, dict) else (r or [])
         labels = {str(i.get("label", "")).lower() for i in items if isinstance(i, dict)}
         want = {"%s%d" % m for m in members}
+        if renamed:
+            want = (want - {"c1"}) | {"c9"}
         if part == "completion" and labels != want:
-            bad.append((tags0 | {"typeres:completion"} | ({"missing"} if want - labels else set()) | ({"extra"} if labels - want else set()),
+            extra_priv = (labels - want) and all(x.startswith("p") for x in labels - want)
+            bad.append((tags0 | {"typeres:completion"} | ({"missing"} if want - labels else set()) | ({"extra"} if labels - want else set())
+                        | ({"extra:onlyPrivateComponents"} if extra_priv and not (want - labels) else set()),
                         {"expected": sorted(want), "observed": sorted(labels)}))
     finally:
         adapter.rmws(d)
@@ -96,7 +147,7 @@ def run(ck, tier, part):
     seen, uniq = set(), []
     for st in states:
         pl = st["place"] if isinstance(st["place"], list) else [st["place"][k] for k in sorted(st["place"])]
-        key = (st["D"], tuple(pl[: st["D"]]), tuple(st["rank"]), st["progFirst"])
+        key = (st["D"], tuple(pl[: st["D"]]), tuple(st["rank"]), st["progFirst"], st.get("oneModule"), st.get("editRoot"))
         if key not in seen:
             seen.add(key)
             uniq.append(st)
